@@ -30,6 +30,10 @@ func (c Common) AfterStep(m *VM, rec *Rec) {
 		if i := strings.Index(rec.Panic, "\n"); i > 0 {
 			frames = rec.Panic[i+1:]
 		}
+		if !strings.Contains(frames, "biscuit-go/v2") {
+			m.Res.Internal = "harness panic in " + rec.K + ": " + rec.Panic
+			return
+		}
 		m.Violate(prop, "panic", "panic in "+rec.K+": "+topLibFrame(frames)+": "+normPanic(first), fmt.Sprintf("op %d (%s) panicked: %s", rec.I, rec.K, rec.Panic))
 	}
 	for _, s := range rec.Call.Stranded {
